@@ -10,10 +10,19 @@ struct Judged
     int undecidable = 0;
 };
 
+// External variables (C20): the analyser to use (already holding the AnalyserExternalVariable objects) and, per external
+// quantity (kind EXTERNAL in the semantic model, init = value the callback returns, in home units), the quantities it
+// declared as dependencies.
+struct JudgeExternals
+{
+    AnalyserPtr analyser;
+    std::map<int, std::vector<int>> deps;
+};
+
 // `model` is the libCellML model to analyse (parsed from `text`, or the result of flattening); quantities are matched
 // to analyser variables by (component name comp<i>, variable name).  Violations are reported for property `prop`
 // (classification problems for C05).  `labels[qi]` = structural label of quantity qi used in violation keys.
 void judgeModel(Ctx &ctx, const std::string &prop, const SemModel &m, const ModelPtr &model, const std::string &text, const std::vector<std::string> &labels,
-                const std::vector<SemPoint> &points, const std::string &caseTag, Judged &jd);
+                const std::vector<SemPoint> &points, const std::string &caseTag, Judged &jd, const JudgeExternals *ext = nullptr);
 
 } // namespace vh
